@@ -255,14 +255,14 @@ fn drift_recursive(spec: &Spec, steps: usize, st: &mut Stats, sink: &Sink) {
 }
 
 /// Part B: a volatile prefix followed by >= N+1 identical values
-fn flat_tail(spec: &Spec, pdepth: usize, st: &mut Stats, sink: &Sink) {
+fn flat_tail<T: Scalar>(spec: &Spec, pdepth: usize, rel: f64, st: &mut Stats, sink: &Sink) {
     use Kind::*;
     let n = spec.n;
     st.configs += 1;
-    let Some(root) = super::common::build_or_report::<f64>("C16", spec, sink) else { return };
+    let Some(root) = super::common::build_or_report::<T>("C16", spec, sink) else { return };
     let lens = [n + 1, n + 2, 3 * n];
     let maxlen = 3 * n + if spec.kind == CyberCycle { 40 * n.max(6) } else { 0 };
-    let mut check_tails = |v: &Dyn<f64>, hist: &[f64], st: &mut Stats| {
+    let mut check_tails = |v: &Dyn<T>, hist: &[f64], st: &mut Stats| {
         for c in F6 {
             let mut inst = v.clone();
             // the exact answer: MyRSI holds a value that only the exact run knows
@@ -282,7 +282,7 @@ fn flat_tail(spec: &Spec, pdepth: usize, st: &mut Stats, sink: &Sink) {
             let mut h = hist.to_vec();
             let mag = hist.iter().fold(c.abs(), |m, x| m.max(x.abs()));
             for i in 1..=maxlen {
-                inst.update(c);
+                inst.update(T::of(c));
                 h.push(c);
                 st.transitions += 1;
                 let judged = if spec.kind == CyberCycle { i == maxlen } else { lens.contains(&i) };
@@ -296,13 +296,13 @@ fn flat_tail(spec: &Spec, pdepth: usize, st: &mut Stats, sink: &Sink) {
                     Vsct | WelfordOnline | HLNormalizer | Cti | Net | Roc | CyberCycle => 0.0,
                     _ => c, // the moving averages
                 };
-                let got = inst.last();
+                let got = inst.last().map(|x| x.f());
                 st.oracle_evals += 1;
                 st.out(got);
-                let t = tol(spec, 1e-4, mag, want);
+                let t = tol(spec, rel, mag, want);
                 if !matches!(got, Some(g) if g.is_finite() && (g - want).abs() <= t) {
                     sink.push(
-                        Violation::new("C16", spec, "flat-tail", "f64", &h, format!("after the volatile prefix {:?} and {} identical values {} the view reports {:?}; the exact flat-window answer is {:e} (tolerance {:e})", hist, i, c, got, want, t))
+                        Violation::new("C16", spec, "flat-tail", T::NAME, &h, format!("after the volatile prefix {:?} and {} identical values {} the view reports {:?}; the exact flat-window answer is {:e} (tolerance {:e})", hist, i, c, got, want, t))
                             .tag("window_flat")
                             .tag_if2(hist.is_empty(), "no_prefix"),
                     );
@@ -314,16 +314,16 @@ fn flat_tail(spec: &Spec, pdepth: usize, st: &mut Stats, sink: &Sink) {
         true
     };
     if let Err(m) = guard(|| check_tails(&root, &[], st)) {
-        sink.push(Violation::new("C16", spec, "panicked", "f64", &[], format!("{} (a flat stream with no prefix)", m)));
+        sink.push(Violation::new("C16", spec, "panicked", T::NAME, &[], format!("{} (a flat stream with no prefix)", m)));
         return;
     }
-    tree::<f64, Dyn<f64>>(
+    tree::<T, Dyn<T>>(
         &root,
         &F7,
         pdepth,
         st,
         &mut |v, hist, st| {
-            v.update(*hist.last().unwrap());
+            v.update(T::of(*hist.last().unwrap()));
             st.transitions += 1;
             if check_tails(v, hist, st) {
                 Step::Go
@@ -331,7 +331,7 @@ fn flat_tail(spec: &Spec, pdepth: usize, st: &mut Stats, sink: &Sink) {
                 Step::Prune
             }
         },
-        &mut |hist, msg| sink.push(Violation::new("C16", spec, "panicked", "f64", hist, msg)),
+        &mut |hist, msg| sink.push(Violation::new("C16", spec, "panicked", T::NAME, hist, msg)),
     );
 }
 
@@ -419,7 +419,9 @@ pub fn run(ctx: &Ctx) -> CheckOutput {
             jobs.push(Box::new(move || {
                 let mut st = Stats::default();
                 let sink = Sink::new();
-                flat_tail(&spec, pdepth, &mut st, &sink);
+                flat_tail::<f64>(&spec, pdepth, 1e-4, &mut st, &sink);
+                // the same clause at f32 with the f32 tolerance of part A
+                flat_tail::<f32>(&spec, pdepth.min(3), 1e-2, &mut st, &sink);
                 JobOut { stats: st, viols: sink.take(), samples: vec![json!({"clause":"flat-tail","view":spec.name(),"driver":format!("every prefix in F7^<={} x 6 flat values x tails of N+1, N+2, 3N", pdepth)})] }
             }));
         }
